@@ -54,6 +54,8 @@ RULES = {
 RULE_TEXT = {
     'cs1': '@charset "ascii";', 'im1': '@import "x.css";', 'nspu': '@namespace p "u";', 'med1': '@media print{a{x:y}}', 'pag': '@page{x:y}',
     'st1': 'a{x:y}', 'st2': 'p|b{x:y}', 'com': '/*c*/', 'bad': 'a{x:y}}b{', 'two': 'a{x:y}b{x:y}',
+    # rules inside rules inside rules; a margin box given twice (its declarations are merged into the first)
+    'med2': '@media print{@media tv{p|b{x:y}@page{x:y;@top-left{x:y}}}}', 'pag2': '@page{x:y;@top-left{x:y}@top-left{z:w}@TOP-LEFT{v:w}}',
 }
 SHEET_TEXTS = ['', '@import "x.css";@namespace p "u";p|b{x:y}', 'a{x:y}@import "x.css";', 'p|b{x:y}']
 # replacement texts stay inside the rule alphabet (or are rejected), so that the state space closes
@@ -145,6 +147,17 @@ def apply(s, op):
             r = s.cssRules[op[1]].add(RULES[op[2]]())
         elif k == 'mdel':
             r = s.cssRules[op[1]].deleteRule(op[2])
+        elif k == 'sprop':
+            # a ready-made Property object (as the library itself hands over when it merges blocks)
+            _styled(s)[op[1]].style.setProperty(css.Property('z', 'w'))
+            r = None
+        elif k == 'smove':
+            # the properties of a block that is thrown away are moved into a block of the sheet (what the library does with a
+            # margin box that is given twice)
+            src = css.CSSStyleDeclaration('z:w;v:u')
+            for prop in src.getProperties(all=True):
+                _styled(s)[op[1]].style.setProperty(prop, replace=False)
+            r = None
         else:
             raise ValueError(op)
         return ('ok', r)
@@ -152,8 +165,29 @@ def apply(s, op):
         return ('rejected', type(e).__name__)
 
 
+PROBES = ('sprop', 'smove')  # judged like every transition, but their target states are not expanded (they leave the rule alphabet)
+
+
+def _styled(s):
+    """every rule with a declaration block, at any depth, in document order"""
+    out = []
+
+    def walk(rules):
+        for r in rules:
+            if r.type in (R.STYLE_RULE, R.PAGE_RULE, R.FONT_FACE_RULE, R.MARGIN_RULE):
+                out.append(r)
+            if r.type in (R.MEDIA_RULE, R.PAGE_RULE):
+                walk(r.cssRules)
+    walk(s.cssRules)
+    return out
+
+
 def ops(s, L):
     n = s.cssRules.length
+    ns = len(_styled(s))
+    for i in range(ns):
+        yield ('sprop', i)
+        yield ('smove', i)
     for r in RULES:
         if n < L:
             for i in range(n + 1):
@@ -243,20 +277,30 @@ def invariant(res, s, case):
             bad.append(('C09.parents', f'rule.parentStyleSheet|{r.typeString}', 'the sheet', repr(r.parentStyleSheet)))
         if r.parentRule is not None:
             bad.append(('C09.parents', f'toplevel-rule.parentRule|{r.typeString}', None, repr(r.parentRule)))
-        if r.type in (R.MEDIA_RULE, R.PAGE_RULE):
-            allowed = MEDIA_ALLOWED if r.type == R.MEDIA_RULE else PAGE_ALLOWED
-            for x in r.cssRules:
-                if x.type not in allowed:
-                    bad.append(('C09.nested', f'{x.typeString}-inside-{r.typeString}', 'only allowed kinds', [y.typeString for y in r.cssRules]))
-                if x.parentRule is not r:
-                    bad.append(('C09.parents', f'nested.parentRule|{x.typeString}-in-{r.typeString}', 'the containing rule', repr(x.parentRule)))
-                if x.parentStyleSheet is not s:
-                    bad.append(('C09.parents', f'nested.parentStyleSheet|{x.typeString}-in-{r.typeString}', 'the sheet', repr(x.parentStyleSheet)))
-                _style_links(bad, x)
+        _nested_links(bad, s, r, 1)
         _style_links(bad, r)
         if r.type in (R.MEDIA_RULE, R.IMPORT_RULE) and r.media is not None and r.media.parentRule is not r:
             bad.append(('C09.parents', f'media.parentRule|{r.typeString}', 'the rule', repr(r.media.parentRule)))
     return bad
+
+
+def _nested_links(bad, s, r, depth):
+    """rules inside rules, at every depth"""
+    if r.type not in (R.MEDIA_RULE, R.PAGE_RULE):
+        return
+    allowed = MEDIA_ALLOWED if r.type == R.MEDIA_RULE else PAGE_ALLOWED
+    deep = '' if depth == 1 else f'|depth={depth}'
+    for x in r.cssRules:
+        if x.type not in allowed:
+            bad.append(('C09.nested', f'{x.typeString}-inside-{r.typeString}', 'only allowed kinds', [y.typeString for y in r.cssRules]))
+        if x.parentRule is not r:
+            bad.append(('C09.parents', f'nested.parentRule|{x.typeString}-in-{r.typeString}{deep}', 'the containing rule', repr(x.parentRule)))
+        if x.parentStyleSheet is not s:
+            bad.append(('C09.parents', f'nested.parentStyleSheet|{x.typeString}-in-{r.typeString}{deep}', 'the sheet', repr(x.parentStyleSheet)))
+        _style_links(bad, x)
+        if x.type == R.MEDIA_RULE and x.media is not None and x.media.parentRule is not x:
+            bad.append(('C09.parents', f'media.parentRule|{x.typeString}{deep}', 'the rule', repr(x.media.parentRule)))
+        _nested_links(bad, s, x, depth + 1)
 
 
 def _style_links(bad, r):
@@ -455,7 +499,7 @@ def step(res, hist, op, L, tier):
     clean = sum(res.violation_counts.values()) == nviol0
     if not clean:
         res.counters['states_not_expanded_behind_a_violation'] += 1
-    return key(s), within_cap(s, L) and clean
+    return key(s), within_cap(s, L) and clean and op[0] not in PROBES
 
 
 def _opkind(op):
